@@ -1,11 +1,632 @@
-//! C14 — not built yet.
+//! C14 — reading needs heap proportional to the longest key (streams) and to k and the longest
+//! key (set operations over k streams), never to the number of keys; opening an FST over
+//! borrowed or mapped bytes and point lookups allocate nothing.
+//!
+//! Measured with the thread-local counting allocator of `memtrack.rs`; the byte bounds are the
+//! values of Coq `Mem.mem_bound_bytes_stream` / `Mem.mem_bound_bytes_ops` (computed here too;
+//! the `M` field carries both sides' numbers).
+use crate::c13::{vcap, Family, KeyGen};
 use crate::common::*;
+use crate::dynaut::Table;
+use crate::memtrack as mem;
+use fst::automaton::{Automaton, Levenshtein, Str, Subsequence};
+use fst::raw::{Fst, Output};
+use fst::{IntoStreamer, Streamer};
+use std::collections::HashMap;
+use std::sync::{Arc, Mutex, OnceLock};
+
 pub struct P;
-impl Prop for P {
-    fn generate(&self, _tier: Tier, _rng: &mut Rng, _stats: &mut Stats) -> Vec<String> {
+
+pub const KEYLEN: usize = 12; // digits of the counter the keys are derived from
+pub const MAXKEY: usize = 13; // longest key: a counter value extended by one byte
+pub const FANOUT: u64 = 16;
+pub const FRAME_BASE: u64 = 80; // StreamState<()>: Node (64) + trans (8) + out (8)
+pub const INP0: u64 = 16; // StreamWithState::new: inp = Vec::with_capacity(16)
+pub const STREAMBOX: u64 = 120; // size_of::<raw::Stream<'_>>() = what OpBuilder boxes per stream
+pub const SLOT: u64 = 40; // ops::Slot { idx, input: Vec<u8>, output }
+pub const SLOT_INPUT0: u64 = 64; // Slot::new: Vec::with_capacity(64)
+pub const IV: u64 = 16; // IndexedValue
+pub const BOXPTR: u64 = 16; // Box<dyn Streamer>
+pub const ALLOWANCE_S: u64 = 256;
+
+/// Must equal Coq `Mem.mem_bound_bytes_stream maxkey statesz`.
+pub fn mem_bound_bytes_stream(maxkey: u64, statesz: u64) -> u64 {
+    vcap(maxkey + 1) * (FRAME_BASE + statesz) + (2 * maxkey).max(INP0) + 2 * maxkey + ALLOWANCE_S
+}
+/// Must equal Coq `Mem.mem_bound_bytes_ops k maxkey`.
+pub fn mem_bound_bytes_ops(k: u64, maxkey: u64) -> u64 {
+    k * (STREAMBOX + mem_bound_bytes_stream(maxkey, 0))
+        + vcap(k) * BOXPTR
+        + vcap(k) * SLOT
+        + k * (2 * maxkey).max(SLOT_INPUT0)
+        + vcap(k) * IV
+        + (2 * maxkey).max(8)
+        + ALLOWANCE_S
+}
+
+// ---------------------------------------------------------------------------------------
+// shared FSTs: variant j of size n holds n keys derived from counter values at multiples of a
+// common stride (each multiple taken with probability about 1/3, so that variants overlap);
+// the keys have varying lengths 0..=13 and many are proper prefixes of later keys (c13::KeyGen)
+// ---------------------------------------------------------------------------------------
+type Slot0 = Arc<OnceLock<&'static Vec<u8>>>;
+static FSTS: OnceLock<Mutex<HashMap<(String, u64, u64), Slot0>>> = OnceLock::new();
+
+/// key family of variant j: 0 -> pfx (empty key, varying lengths, keys that are prefixes of
+/// later keys), 1 -> ext (key, key+x pairs), 2 -> fix, then again
+pub fn family_of(variant: u64) -> Family {
+    match variant % 3 {
+        0 => Family::Pfx,
+        1 => Family::Ext,
+        _ => Family::Fix,
+    }
+}
+/// `total` keys on a grid of the 2^48 counter values; `variant` selects family and seed
+fn keygen(total: u64, variant: u64) -> KeyGen {
+    let space: u64 = FANOUT.pow(KEYLEN as u32); // 2^48
+    KeyGen::with_steps(family_of(variant), FANOUT, KEYLEN, 1000 + total * 16 + variant, space / (5 * total + 7), 5)
+}
+
+/// The j-th FST of a named construction, for size parameter n:
+///   dense    n keys, variant j (grid points taken with probability ~1/3: variants overlap densely)
+///   nested   the first n/(j+1) keys of one base sequence of n keys
+///   ranges   keys j*n .. (j+1)*n of one base sequence of 8n keys (range-partitioned, disjoint)
+///   disjoint keys i with i mod 8 = j of that base sequence (interleaved, pairwise disjoint)
+///   tiny     10 keys spread over the dense variant 0
+pub fn fst_of(cons: &str, j: u64, n: u64) -> &'static Vec<u8> {
+    let slot = {
+        let mut m = FSTS.get_or_init(|| Mutex::new(HashMap::new())).lock().unwrap();
+        m.entry((cons.to_string(), j, n)).or_insert_with(|| Arc::new(OnceLock::new())).clone()
+    };
+    slot.get_or_init(|| {
+        let mut b = fst::raw::Builder::new(Vec::new()).unwrap();
+        let (mut g, total): (KeyGen, u64) = match cons {
+            "dense" => (keygen(n, j), n),
+            "nested" => (keygen(n, 99), n / (j + 1)),
+            "ranges" | "disjoint" => (keygen(8 * n, 96), 8 * n),
+            "tiny" => (keygen(n, 0), n),
+            _ => panic!("construction"),
+        };
+        for i in 0..total {
+            let k = g.next();
+            let take = match cons {
+                "ranges" => i / n == j,
+                "disjoint" => i % 8 == j,
+                "tiny" => i % (n / 10) == n / 20,
+                _ => true,
+            };
+            if take {
+                b.insert(k, i * 3 + j).unwrap();
+            }
+        }
+        Box::leak(Box::new(b.into_inner().unwrap()))
+    })
+}
+pub fn fst_bytes(n: u64, variant: u64) -> &'static Vec<u8> {
+    fst_of("dense", variant, n)
+}
+
+/// Overlap shapes of the k inputs of a set operation.
+pub const SHAPES: [&str; 6] = ["ident", "dense", "disjoint", "ranges", "nested", "tiny"];
+pub fn inputs(shape: &str, k: u64, n: u64) -> Vec<&'static Vec<u8>> {
+    (0..k)
+        .map(|j| match shape {
+            "ident" => fst_of("dense", 0, n),
+            "dense" => fst_of("dense", j, n),
+            "disjoint" => fst_of("disjoint", j, n),
+            "ranges" => fst_of("ranges", j, n),
+            "nested" => fst_of("nested", j, n),
+            "tiny" => {
+                if j == 0 {
+                    fst_of("tiny", 0, n)
+                } else {
+                    fst_of("dense", j, n)
+                }
+            }
+            _ => panic!("shape"),
+        })
+        .collect()
+}
+
+/// some keys that are present (every (n/cnt)-th) and some that are not
+fn probes(f: &Fst<&[u8]>, n: u64, cnt: usize) -> (Vec<Vec<u8>>, Vec<Vec<u8>>) {
+    let step = (n as usize / cnt).max(1);
+    let mut hits = vec![];
+    let mut s = f.stream();
+    let mut i = 0usize;
+    while let Some((k, _)) = s.next() {
+        if i % step == 0 && hits.len() < cnt {
+            hits.push(k.to_vec());
+        }
+        i += 1;
+    }
+    let mut misses = vec![];
+    for (j, h) in hits.iter().enumerate() {
+        let mut m = h.clone();
+        match j % 3 {
+            0 => {
+                while m.len() <= MAXKEY {
+                    m.push(b'a') // longer than any key
+                }
+            }
+            1 => m.push(b'z'),                 // a byte outside the alphabet
+            _ => {
+                if m.is_empty() {
+                    m.push(0xFF)
+                } else {
+                    let i = j % m.len();
+                    m[i] = 0xFF
+                }
+            }
+        }
+        misses.push(m);
+    }
+    (hits, misses)
+}
+
+pub fn table_dfa() -> Table {
+    // 2 classes (byte parity), 3 states: counts odd bytes mod 3, accepts on 0; never prunes
+    Table { ncls: 2, next: vec![0, 1, 1, 2, 2, 0], m: vec![true, false, false], c: vec![true; 3], w: vec![false; 3], start: 0 }
+}
+
+/// 16 classes (byte mod 16; 'p' is class 0): matches the keys that end in "pp" (1 key in 256),
+/// never prunes: long runs of rejected keys between two matches
+pub fn rare_dfa() -> Table {
+    let mut next = vec![0usize; 3 * 16];
+    next[0] = 1; // state 0 on 'p'
+    next[16] = 2; // state 1 on 'p'
+    next[32] = 2; // state 2 on 'p'
+    Table { ncls: 16, next, m: vec![false, false, true], c: vec![true; 3], w: vec![false; 3], start: 0 }
+}
+/// matches nothing and never prunes: the whole FST is traversed and every key rejected
+pub fn never_dfa() -> Table {
+    Table { ncls: 1, next: vec![0], m: vec![false], c: vec![true], w: vec![false], start: 0 }
+}
+
+#[derive(Default, Clone, Debug)]
+pub struct Trav {
+    pub peak: u64,
+    pub allocs: u64,
+    pub items: u64,
+    pub maxlen: usize,
+}
+
+fn drive<'f, A: Automaton>(mut s: fst::raw::Stream<'f, A>) -> (u64, usize) {
+    let (mut cnt, mut ml) = (0u64, 0usize);
+    while let Some((k, _)) = s.next() {
+        cnt += 1;
+        ml = ml.max(k.len());
+    }
+    (cnt, ml)
+}
+
+/// A full traversal of the named kind over the FST of size n; the peak is taken over the
+/// construction of the stream and the whole traversal.
+pub fn traverse(kind: &str, n: u64) -> Trav {
+    let bytes = fst_bytes(n, 0);
+    let f = Fst::new(&bytes[..]).unwrap();
+    // query of the Str / Levenshtein searches: a key of the longest length present in every
+    // one of the FSTs (the depth such a search reaches is set by its query, not by the FST)
+    let query: Vec<u8> = if kind.starts_with("search_str") || kind.starts_with("search_lev") {
+        let (hits, _) = probes(&f, n, 64);
+        hits.into_iter().find(|h| h.len() == MAXKEY).expect("no key of the maximal length among the probes")
+    } else {
         vec![]
+    };
+    let lo: &[u8] = b"bdddddd";
+    let hi: &[u8] = b"onnnnnnnnnnnnn";
+    let (cnt, ml);
+    match kind {
+        "stream" => {
+            mem::reset();
+            let r = drive(f.stream());
+            cnt = r.0;
+            ml = r.1;
+        }
+        "range_ge_lt" => {
+            mem::reset();
+            let r = drive(f.range().ge(lo).lt(hi).into_stream());
+            cnt = r.0;
+            ml = r.1;
+        }
+        "range_gt_le" => {
+            mem::reset();
+            let r = drive(f.range().gt(lo).le(hi).into_stream());
+            cnt = r.0;
+            ml = r.1;
+        }
+        "search_str" => {
+            let a = Str::new(std::str::from_utf8(&query).unwrap());
+            mem::reset();
+            let r = drive(f.search(a).into_stream());
+            cnt = r.0;
+            ml = r.1;
+        }
+        "search_subseq" => {
+            let a = Subsequence::new("cab");
+            mem::reset();
+            let r = drive(f.search(a).into_stream());
+            cnt = r.0;
+            ml = r.1;
+        }
+        "search_table" => {
+            let a = table_dfa();
+            mem::reset();
+            let r = drive(f.search(&a).into_stream());
+            cnt = r.0;
+            ml = r.1;
+        }
+        "search_rare" => {
+            let a = rare_dfa();
+            mem::reset();
+            let r = drive(f.search(&a).into_stream());
+            cnt = r.0;
+            ml = r.1;
+        }
+        "search_never" => {
+            let a = never_dfa();
+            mem::reset();
+            let r = drive(f.search(&a).into_stream());
+            cnt = r.0;
+            ml = r.1;
+        }
+        "search_str_last" => {
+            // the last key of maximal length: (almost) everything before it is rejected
+            let mut last = vec![];
+            let mut s = f.stream();
+            while let Some((k, _)) = s.next() {
+                if k.len() == MAXKEY {
+                    last.clear();
+                    last.extend_from_slice(k);
+                }
+            }
+            drop(s);
+            let a = Str::new(std::str::from_utf8(&last).unwrap());
+            mem::reset();
+            let r = drive(f.search(a).into_stream());
+            cnt = r.0;
+            ml = r.1;
+        }
+        "search_lev" => {
+            let a = Levenshtein::new(std::str::from_utf8(&query).unwrap(), 1).unwrap();
+            mem::reset();
+            let r = drive(f.search(&a).into_stream());
+            cnt = r.0;
+            ml = r.1;
+        }
+        "search_subseq_range" => {
+            let a = Subsequence::new("ab");
+            mem::reset();
+            let r = drive(f.search(a).ge(lo).le(hi).into_stream());
+            cnt = r.0;
+            ml = r.1;
+        }
+        _ => panic!("kind"),
     }
-    fn execute(&self, _case: &str) -> String {
-        String::new()
+    Trav { peak: mem::peak(), allocs: mem::allocs(), items: cnt, maxlen: ml }
+}
+
+pub fn statesz_of(kind: &str) -> u64 {
+    (match kind {
+        "search_str" | "search_str_last" => std::mem::size_of::<<Str<'static> as Automaton>::State>(),
+        "search_subseq" | "search_subseq_range" => std::mem::size_of::<<Subsequence<'static> as Automaton>::State>(),
+        "search_table" | "search_rare" | "search_never" => std::mem::size_of::<<Table as Automaton>::State>(),
+        "search_lev" => std::mem::size_of::<<Levenshtein as Automaton>::State>(),
+        _ => 0,
+    }) as u64
+}
+
+/// A set operation over k FSTs in the given overlap shape: OpBuilder construction and the
+/// full traversal are both inside the measurement.
+pub fn run_op(kind: &str, shape: &str, k: u64, n: u64) -> Trav {
+    let fs: Vec<Fst<&[u8]>> = inputs(shape, k, n).into_iter().map(|b| Fst::new(&b[..]).unwrap()).collect();
+    mem::reset();
+    let mut ob = fst::raw::OpBuilder::new();
+    for f in &fs {
+        ob.push(f);
     }
+    let (mut cnt, mut ml) = (0u64, 0usize);
+    macro_rules! go {
+        ($s:expr) => {{
+            let mut s = $s;
+            while let Some((key, ivs)) = s.next() {
+                cnt += 1;
+                ml = ml.max(key.len());
+                assert!(!ivs.is_empty());
+            }
+        }};
+    }
+    match kind {
+        "union" => go!(ob.union()),
+        "intersection" => go!(ob.intersection()),
+        "difference" => go!(ob.difference()),
+        "symmetric_difference" => go!(ob.symmetric_difference()),
+        _ => panic!("op"),
+    }
+    Trav { peak: mem::peak(), allocs: mem::allocs(), items: cnt, maxlen: ml }
+}
+
+static LOG: Mutex<Vec<String>> = Mutex::new(Vec::new());
+fn log(s: String) {
+    if std::env::var("VERIF_MEM_DEBUG").is_ok() {
+        eprintln!("{}", s);
+    }
+    LOG.lock().unwrap().push(s);
+}
+
+const TRAV_KINDS: [&str; 11] = [
+    "stream", "range_ge_lt", "range_gt_le", "search_str", "search_str_last", "search_subseq", "search_table", "search_rare", "search_never", "search_lev",
+    "search_subseq_range",
+];
+const OP_KINDS: [&str; 4] = ["union", "intersection", "difference", "symmetric_difference"];
+
+fn measure_kind(kind: &str, n: u64) -> Trav {
+    // "union:4:disjoint" = set operation over 4 streams in that overlap shape
+    let q: Vec<&str> = kind.split(':').collect();
+    if q.len() == 3 {
+        return run_op(q[0], q[2], q[1].parse().unwrap(), n);
+    }
+    traverse(kind, n)
+}
+
+impl Prop for P {
+    fn generate(&self, tier: Tier, _rng: &mut Rng, stats: &mut Stats) -> Vec<String> {
+        let ns: &[u64] = match tier {
+            Tier::Quick => &[10_000, 100_000, 300_000],
+            Tier::Thorough => &[10_000, 100_000, 1_000_000],
+            Tier::Wide => &[10_000, 30_000, 100_000],
+        };
+        let mut cases = vec![];
+        for &n in ns {
+            cases.push(format!("open_get {}", n));
+            stats.bump("open_get");
+            for kind in TRAV_KINDS {
+                cases.push(format!("trav {} {} {} {}", kind, n, MAXKEY, statesz_of(kind)));
+                stats.bump("traversals");
+            }
+            for op in OP_KINDS {
+                for shape in SHAPES {
+                    for k in 2..=8u64 {
+                        cases.push(format!("op {} {} {} {} {}", op, shape, k, n, MAXKEY));
+                        stats.bump("set_operations");
+                        stats.bump(&format!("set_operations_{}", shape));
+                    }
+                }
+            }
+        }
+        let (n1, n2) = (ns[0], ns[ns.len() - 1]);
+        for kind in TRAV_KINDS {
+            cases.push(format!("flat {} {} {}", kind, n1, n2));
+            cases.push(format!("flat {} {} {}", kind, ns[1], n2));
+            stats.add("flatness", 2);
+        }
+        for op in OP_KINDS {
+            for shape in SHAPES {
+                for k in [2u64, 3, 8] {
+                    cases.push(format!("flat {}:{}:{} {} {}", op, k, shape, n1, n2));
+                    stats.bump("flatness");
+                }
+            }
+        }
+        cases
+    }
+
+    fn nontrivial(&self, case: &str) -> bool {
+        // everything here runs on an FST of at least 10^4 keys
+        !case.is_empty()
+    }
+
+    fn execute(&self, case: &str) -> String {
+        let p: Vec<&str> = case.split(' ').collect();
+        match p[0] {
+            "open_get" => {
+                let n: u64 = p[1].parse().unwrap();
+                let bytes = fst_bytes(n, 0);
+                // the mapped file is prepared outside the measurement
+                let dir = format!("{}/target/c14-mmap", env!("CARGO_MANIFEST_DIR"));
+                std::fs::create_dir_all(&dir).unwrap();
+                let path = format!("{}/fst_{}_{:?}.fst", dir, n, std::thread::current().id());
+                std::fs::write(&path, &bytes[..]).unwrap();
+                let file = std::fs::File::open(&path).unwrap();
+                let mm = unsafe { memmap2::Mmap::map(&file).unwrap() };
+                let f0 = Fst::new(&bytes[..]).unwrap();
+                let (hits, misses) = probes(&f0, n, 500);
+                drop(f0);
+                // 1. open over borrowed bytes
+                mem::reset();
+                let fb = Fst::new(&bytes[..]);
+                let a_open_borrowed = mem::allocs();
+                let fb = fb.unwrap();
+                // 2. open over mapped bytes (the map itself exists already)
+                mem::reset();
+                let fm = Fst::new(mm);
+                let a_open_mapped = mem::allocs();
+                let fm = fm.unwrap();
+                // 3. map front end over borrowed bytes
+                mem::reset();
+                let mp = fst::Map::new(&bytes[..]);
+                let a_open_map = mem::allocs();
+                let mp = mp.unwrap();
+                // 4. point lookups: hits and misses, on all three
+                mem::reset();
+                let mut found = 0u64;
+                let mut absent = 0u64;
+                let mut sum = 0u64;
+                for h in &hits {
+                    if let Some(o) = fb.get(h) {
+                        found += 1;
+                        sum = sum.wrapping_add(o.value());
+                    }
+                    found += fb.contains_key(h) as u64;
+                    found += fm.get(h).is_some() as u64;
+                    found += fm.contains_key(h) as u64;
+                    found += mp.get(h).is_some() as u64;
+                    found += mp.contains_key(h) as u64;
+                }
+                for m in &misses {
+                    absent += fb.get(m).is_none() as u64;
+                    absent += !fb.contains_key(m) as u64;
+                    absent += fm.get(m).is_none() as u64;
+                    absent += !fm.contains_key(m) as u64;
+                    absent += mp.get(m).is_none() as u64;
+                    absent += !mp.contains_key(m) as u64;
+                }
+                let a_get = mem::allocs();
+                let peak_get = mem::peak();
+                drop(fm);
+                let _ = std::fs::remove_file(&path);
+                let total = a_open_borrowed + a_open_mapped + a_open_map + a_get;
+                log(format!(
+                    "{}: allocs open_borrowed={} open_mapped={} open_map={} lookups={} probes={} found={} absent={} checksum={}",
+                    case, a_open_borrowed, a_open_mapped, a_open_map, a_get, hits.len() + misses.len(), found, absent, sum
+                ));
+                let mut x = String::from("ok");
+                if total != 0 || peak_get != 0 {
+                    x = format!("allocations: open_borrowed={} open_mapped={} open_map={} lookups={} (peak {} bytes)", a_open_borrowed, a_open_mapped, a_open_map, a_get, peak_get);
+                } else if found != 6 * hits.len() as u64 || absent != 6 * misses.len() as u64 || hits.len() != 500 {
+                    x = format!("probe set wrong: found {} of {}, absent {} of {}", found, 6 * hits.len(), absent, 6 * misses.len());
+                }
+                format!("S:allocs={}\tM:0\tX:{}", total, x)
+            }
+            "trav" => {
+                let kind = p[1];
+                let n: u64 = p[2].parse().unwrap();
+                let maxkey: u64 = p[3].parse().unwrap();
+                let statesz: u64 = p[4].parse().unwrap();
+                let t = traverse(kind, n);
+                let bound = mem_bound_bytes_stream(maxkey, statesz);
+                log(format!("{}: peak={} bound={} allocs={} items={} maxlen={}", case, t.peak, bound, t.allocs, t.items, t.maxlen));
+                let within = t.peak <= bound;
+                let mut x = String::from("ok");
+                if !within {
+                    x = format!("peak={} bound={} items={}", t.peak, bound, t.items);
+                } else if (t.items == 0 && kind != "search_never") || (kind == "stream" && t.items != n) {
+                    x = format!("traversal yielded {} items", t.items);
+                } else if t.maxlen as u64 > maxkey || statesz != statesz_of(kind) {
+                    x = format!("case parameters wrong: maxlen {} statesz {}", t.maxlen, statesz_of(kind));
+                }
+                format!("S:{}\tM:{}\tX:{}", if within { "within" } else { "exceeds" }, bound, x)
+            }
+            "op" => {
+                let op = p[1];
+                let shape = p[2];
+                let k: u64 = p[3].parse().unwrap();
+                let n: u64 = p[4].parse().unwrap();
+                let maxkey: u64 = p[5].parse().unwrap();
+                let t = run_op(op, shape, k, n);
+                let bound = mem_bound_bytes_ops(k, maxkey);
+                log(format!("{}: peak={} bound={} allocs={} items={}", case, t.peak, bound, t.allocs, t.items));
+                let within = t.peak <= bound;
+                let mut x = String::from("ok");
+                if !within {
+                    x = format!("peak={} bound={} items={}", t.peak, bound, t.items);
+                } else if t.items == 0 && (op == "union" || (op == "symmetric_difference" && shape != "ident")) {
+                    x = format!("operation yielded {} items", t.items);
+                } else if t.maxlen as u64 > maxkey {
+                    x = format!("key of length {} > {}", t.maxlen, maxkey);
+                }
+                format!("S:{}\tM:{}\tX:{}", if within { "within" } else { "exceeds" }, bound, x)
+            }
+            "flat" => {
+                let kind = p[1];
+                let n1: u64 = p[2].parse().unwrap();
+                let n2: u64 = p[3].parse().unwrap();
+                let t1 = measure_kind(kind, n1);
+                let t2 = measure_kind(kind, n2);
+                log(format!("{}: peak1={} peak2={} items1={} items2={}", case, t1.peak, t2.peak, t1.items, t2.items));
+                // single streams: exactly flat. Set operations: the depth a lazily advanced input
+                // stream has reached depends on the length of the key it is parked on (e.g. the
+                // streams a difference never has to advance), which moves its Vec capacities by
+                // one doubling step independently of N: a quarter on top is allowed there.
+                let is_op = kind.contains(':');
+                let flat = if is_op { t2.peak <= t1.peak * 5 / 4 + 256 } else { t2.peak <= t1.peak + 256 };
+                let mut x = String::from("ok");
+                if !flat {
+                    x = format!("peak({})={} peak({})={}", n1, t1.peak, n2, t2.peak);
+                } else if t2.items < t1.items && !kind.starts_with("search_lev") && !is_op {
+                    x = format!("items {} -> {}", t1.items, t2.items);
+                }
+                format!("S:{}\tM:{}\tX:{}", if flat { "flat" } else { "grows" }, if is_op { "5/4+256" } else { "256" }, x)
+            }
+            _ => "S:BADCASE\tM:BADCASE".into(),
+        }
+    }
+
+    fn extras(&self, _tier: Tier, _rng: &mut Rng, stats: &mut Stats) -> Vec<(String, bool, String)> {
+        let mut out = vec![];
+        #[allow(dead_code)]
+        struct MStreamState<'f, S> {
+            node: fst::raw::Node<'f>,
+            trans: usize,
+            out: Output,
+            aut_state: S,
+        }
+        #[allow(dead_code)]
+        struct MSlot {
+            idx: usize,
+            input: Vec<u8>,
+            output: Output,
+        }
+        type BoxedStream<'f> = Box<dyn for<'a> Streamer<'a, Item = (&'a [u8], Output)> + 'f>;
+        let f0 = std::mem::size_of::<MStreamState<'static, ()>>() as u64;
+        let f8 = std::mem::size_of::<MStreamState<'static, usize>>() as u64;
+        let f16 = std::mem::size_of::<MStreamState<'static, Option<usize>>>() as u64;
+        let sb = std::mem::size_of::<fst::raw::Stream<'static>>() as u64;
+        let sl = std::mem::size_of::<MSlot>() as u64;
+        let iv = std::mem::size_of::<fst::raw::IndexedValue>() as u64;
+        let bp = std::mem::size_of::<BoxedStream<'static>>() as u64;
+        let ok = f0 == FRAME_BASE && f8 == FRAME_BASE + 8 && f16 == FRAME_BASE + 16 && sb == STREAMBOX && sl == SLOT && iv == IV && bp == BOXPTR;
+        out.push((
+            "struct_sizes_match_Mem_v".to_string(),
+            ok,
+            format!(
+                "size_of StreamState(mirror)<()>={} <usize>={} <Option<usize>>={} raw::Stream={} Slot(mirror)={} IndexedValue={} Box<dyn Streamer>={}; Mem.v uses FRAME={}+statesz STREAMBOX={} SLOT={} IV={} BOXPTR={}",
+                f0, f8, f16, sb, sl, iv, bp, FRAME_BASE, STREAMBOX, SLOT, IV, BOXPTR
+            ),
+        ));
+        let logv = LOG.lock().unwrap().clone();
+        let mut worst = 0.0f64;
+        let mut worst_case = String::new();
+        for l in &logv {
+            if let (Some(pk), Some(bd)) = (field(l, "peak="), field(l, "bound=")) {
+                let r = pk as f64 / bd as f64;
+                if r > worst {
+                    worst = r;
+                    worst_case = l.clone();
+                }
+                let cfg = l.split(':').next().unwrap().replace(' ', "_");
+                stats.counters.insert(format!("peak_bytes_{}", cfg), pk);
+            }
+        }
+        let mut sample: Vec<String> = logv.iter().filter(|l| l.starts_with("flat ") || l.starts_with("open_get")).cloned().collect();
+        sample.sort();
+        sample.truncate(40);
+        out.push(("measured_peaks".to_string(), true, format!("worst peak/bound = {:.3} ({}); {}", worst, worst_case, sample.join(" | "))));
+        // detection power: a traversal that collects its keys must fail flatness and the bound
+        let collect = |n: u64| {
+            let bytes = fst_bytes(n, 0);
+            let f = Fst::new(&bytes[..]).unwrap();
+            mem::reset();
+            let v = f.stream().into_byte_keys();
+            let p = mem::peak();
+            drop(v);
+            p
+        };
+        let (p1, p2) = (collect(10_000), collect(100_000));
+        let bound = mem_bound_bytes_stream(MAXKEY as u64, 0);
+        let detected = p2 > p1 + 256 && p2 > bound;
+        out.push((
+            "criteria_reject_collecting_traversal".to_string(),
+            detected,
+            format!("into_byte_keys (keeps every key): peak(1e4)={} peak(1e5)={} bound={} -> flatness and bound both fail as they must: {}", p1, p2, bound, detected),
+        ));
+        out
+    }
+}
+
+fn field(l: &str, name: &str) -> Option<u64> {
+    let i = l.find(name)? + name.len();
+    let rest = &l[i..];
+    let end = rest.find(' ').unwrap_or(rest.len());
+    rest[..end].parse().ok()
 }
